@@ -250,12 +250,12 @@ def main(argv):
             "bounded_not_counted_as_proved": len(bounded),
             "known_findings_hit": [f["obligation"] for f, _ in findings_hit],
             "undecided": undecided,
-            "samples": [o["name"] for o in obligations][:40],
+            "samples": [o["name"] for o in obligations][:40] + [x for o in obligations for x in o.get("samples", [])][:12],
             "explanation": cfg.get("explanation", ""),
             "exhaustive": False,
-            "evaluations": sum(o.get("cases", 1) for o in obligations if o["status"] in ("discharged", "known-finding", "failed")),
+            "evaluations": sum(o.get("cases", 1) + o.get("rejected", 0) for o in obligations),
             "distinct_nontrivial": sum(o.get("cases", 1) for o in obligations if o["status"] == "discharged"),
-            "rule": "one evaluation per discharged verifier obligation (a function/lemma/harness verified for all inputs) plus, for native bounded stand-ins, one per distinct combination of small-domain values that satisfied the harness assumptions and was executed on the real code",
+            "rule": "evaluations = every verifier obligation attempted (Verus function/lemma, Kani harness; each covers all inputs) + every choice vector the native small-scope enumeration generated, including those rejected by a harness assumption. distinct_nontrivial = discharged verifier obligations + native choice vectors that satisfied the harness assumptions and ran the real code to completion (choice vectors are distinct by construction: mixed-radix counter over the draw domains); obligations that failed, are undecided or are known findings are not counted",
             "programs": cfg.get("programs", None),
         },
         "assumptions": sorted(assumptions),
